@@ -96,6 +96,7 @@ def _run(world, plan):
     servers = []
     state = {'conn': -1}
     events_by_conn = {e['conn']: e for e in plan.get('events', [])}
+    requested = set()  # connections for which reconnect() was already requested (never stored in the plan)
 
     def server_factory(k):
         def f():
@@ -130,16 +131,16 @@ def _run(world, plan):
         async def on_close_hook(rs):
             k = state['conn']
             ev = events_by_conn.get(k)
-            if ev is not None and ev.get('via') == 'on_close' and not ev.get('requested'):
-                ev['requested'] = True
+            if ev is not None and ev.get('via') == 'on_close' and k not in requested:
+                requested.add(k)
                 world.rec('act', ep='client', what='reconnect', via='on_close', conn=k)
                 await rs.reconnect()
 
         async def on_timeout_hook(rs):
             k = state['conn']
             ev = events_by_conn.get(k)
-            if ev is not None and ev.get('via') == 'on_keepalive_timeout' and not ev.get('requested'):
-                ev['requested'] = True
+            if ev is not None and ev.get('via') == 'on_keepalive_timeout' and k not in requested:
+                requested.add(k)
                 world.rec('act', ep='client', what='reconnect', via='on_keepalive_timeout', conn=k)
                 await rs.reconnect()
 
@@ -180,15 +181,15 @@ def _run(world, plan):
             elif cause == 'keepalive_timeout':
                 links[k].silence('s2c', True)
             elif cause == 'explicit':
-                ev['requested'] = True
+                requested.add(k)
                 world.rec('act', ep='client', what='reconnect', via='script', conn=k)
                 loop.create_task(world.endpoints['client'].reconnect())
 
         loop.call_at(ev['at'], lambda end=end, ev=ev: loop.call_after_hops(ev.get('hops', 0), end))
         if ev.get('reconnect_at') is not None and ev['cause'] != 'explicit':
             def req(ev=ev):
-                if not ev.get('requested'):
-                    ev['requested'] = True
+                if ev['conn'] not in requested:
+                    requested.add(ev['conn'])
                     world.rec('act', ep='client', what='reconnect', via='script', conn=ev['conn'])
                     loop.create_task(world.endpoints['client'].reconnect())
 
